@@ -263,19 +263,19 @@ theorem shapeOfKids_runKids (cfg : Cfg) (fails : Nat → Bool) (hIO : cfg.keepIO
     split
     · rename_i i hp
       obtain ⟨h1, h2⟩ := shapeOfKids_runKids cfg fails hIO hKE hDD hBE rest mode pins links mask
-        (st.push n (setIns i (kidMask links mask st.pre.length n.own false) n) false false)
+        (st.push n (setIns i (kidMask links mask st.pre.length n.own []) n) false false)
       rw [h1, h2, KS.push_bumps_same _ _ _ _ _ (by simp)]
       simp [shapeOfKids_append, shapeOfKids]
     · rename_i i hp
       obtain ⟨h1, h2⟩ := shapeOfKids_runKids cfg fails hIO hKE hDD hBE rest mode pins links mask
-        (st.push n (setIns i (kidMask links mask st.pre.length n.own true) n) false true)
+        (st.push n (setIns i (kidMask links mask st.pre.length n.own (fetchedMask st n.own)) n) false true)
       rw [h1, h2, KS.push_bumps_same _ _ _ _ _ (by simp)]
       simp [shapeOfKids_append, shapeOfKids]
     · rename_i i hp
       obtain ⟨h1, h2⟩ := shapeOfKids_runKids cfg fails hIO hKE hDD hBE rest mode pins links mask
-        (st.push n (run cfg fails mode i (kidMask links mask st.pre.length n.own true) n)
-          (!(run cfg fails mode i (kidMask links mask st.pre.length n.own true) n).own.failed)
-          (run cfg fails mode i (kidMask links mask st.pre.length n.own true) n).own.failed)
+        (st.push n (run cfg fails mode i (kidMask links mask st.pre.length n.own (fetchedMask st n.own)) n)
+          (!(run cfg fails mode i (kidMask links mask st.pre.length n.own (fetchedMask st n.own)) n).own.failed)
+          (run cfg fails mode i (kidMask links mask st.pre.length n.own (fetchedMask st n.own)) n).own.failed)
       rw [h1, h2, KS.push_bumps_same _ _ _ _ _ (run_gen_of_not_byValue cfg fails mode i _ n (Or.inr hIO))]
       simp [shapeOfKids_append, shapeOfKids, shapeOf_run cfg fails hIO hKE hDD hBE n mode i]
   termination_by kids => sizeOf kids
